@@ -24,13 +24,14 @@ from engine import common, tlc, replay, runpy
 from bind import _pycalls as pc
 
 PROP = "C04"
-INL_INVARIANTS = ["SitesIndependent", "OnlyTargets", "DefinitionRemovedIffAsked", "NoDanglingCall"]
+INL_INVARIANTS = ["SitesIndependent", "OnlyTargets", "DefinitionRemovedIffAsked", "NoDanglingCall", "HostLocalsKept"]
 VAR_INVARIANTS = ["ObsPreserved", "NoDanglingRead"]
 CTXS = ("stmt", "rhs", "nested", "suffix")
 
 
-def inline_constants(max_params, max_sites, plain=False):
-    return {"MaxParams": max_params, "MaxArgs": 3, "Kinds": tlc.Sub("InlineKinds"), "Stars": False, "KoSet": tlc.Sub("NoKo"),
+def inline_constants(max_params, max_sites, plain=False, scopes=False):
+    return {"Hosts": {True, False} if scopes else tlc.Sub("NoHost"),
+            "Dups": {True, False} if scopes else tlc.Sub("NoDup"),"MaxParams": max_params, "MaxArgs": 3, "Kinds": tlc.Sub("InlineKinds"), "Stars": False, "KoSet": tlc.Sub("NoKo"),
             "MaxChangers": 0, "Task": "inline", "MaxSites": max_sites,
             "Uses": tlc.Sub("PlainOnly" if plain else "AllUses"), "Cxs": tlc.Sub("NoCx") if plain else {True, False}}
 
@@ -52,7 +53,8 @@ def run_inline(item):
     sig, sites, opt = beh["sig"], beh["sites"], beh["opt"]
     res = {"beh": beh, "kind": kind, "dims": dims, "at": at, "fails": [], "outcome": None, "part": "function"}
     calls = [s["c"] for s in sites]
-    bad = pc.flat_check(sig, calls, [{"par": b, "va": [], "kw": []} for b in beh["bind"]])
+    bad = pc.flat_check(sig, calls, [{"par": b, "va": [], "kw": []} for b in beh["bind"]],
+                        vbs=[0 if s.get("dup") else k for k, s in enumerate(sites)])
     if bad:
         return {"machinery": "spec vs CPython: " + bad, "item": [sig, calls]}
     files = pc.render_inline_program(kind, sig, sites, dims)
@@ -131,7 +133,9 @@ def judge_inline(res, beh, kind, dims, after, root):
             if not exc1 and got == want_x and want_x != want:
                 detail["matches_defect_model"] = name
                 break
-        fails.append("SitesIndependent")
+        only_hv = (not exc1 and len(got) == len(want) and
+                   all(g == w or (isinstance(w, tuple) and w and w[0] == "hv") for g, w in zip(got, want)))
+        fails.append("HostLocalsKept" if only_hv else "SitesIndependent")
     # structure: which sites are still calls, whether the definition is still there
     segs = {}
     for p in ("m.py", "n.py"):
@@ -197,7 +201,8 @@ def inline_key(r):
     key.update({
         "kind": r["kind"], "remove": opt["remove"], "only_current": opt["only"], "use": opt["use"], "cx": opt["cx"],
         "ret": r["dims"]["ret"], "imp": r["dims"]["imp"], "host": r["dims"].get("host"),
-        "argvar": r["dims"].get("argvar"), "tmp": r["dims"].get("tmp"),
+        "argvar": r["dims"].get("argvar"), "tmp": r["dims"].get("tmp"), "scopes": r["dims"].get("scopes", False),
+        "identical_call_texts": bool(beh.get("twins")),
         "ctx": sorted(set(r["dims"]["ctx"])), "modules": sorted(set(s["m"] for s in beh["sites"])),
         "at": "def" if r["at"] == "def" else "site",
         "exc": (r.get("exc") or "").split(":")[0] or None,
@@ -214,6 +219,14 @@ def inline_dims(beh, rnd):
             # names: sites inside a host function, a host variable around every site (its own `t`, or the
             # first argument passed through a variable named like the body's temporary / like a parameter)
             "host": rnd.random() < 0.4, "hostvar": False, "argvar": None, "tmp": rnd.random() < 0.4}
+    if "hostval" in beh and any("h" in s for s in beh["sites"]) and beh.get("scoped"):
+        # scopes come from the spec: one scope per site, host local where the spec says so; textually
+        # identical sites (spec's Twins) are rendered with the same call variant and context
+        d.update({"scopes": True, "hostval": beh["hostval"], "host": False})
+        for i, j in sorted(beh["twins"]):
+            d["variant"][j - 1] = d["variant"][i - 1]
+            d["ctx"][j - 1] = d["ctx"][i - 1]
+        return d
     if rnd.random() < 0.6:
         d["hostvar"] = True
         # arguments through variables only where the spec's defect model predicts no deviation, so that
@@ -334,7 +347,8 @@ def stratified(behs, n, rnd):
     groups = {}
     for b in behs:
         o = b["opt"]
-        g = (o["remove"], o["only"], tuple(s["m"] for s in b["sites"]), o["use"], o["cx"])
+        g = (o["remove"], o["only"], tuple(s["m"] for s in b["sites"]), o["use"], o["cx"],
+             tuple((s.get("h", False), s.get("dup", False)) for s in b["sites"]) if b.get("scoped") else ())
         groups.setdefault(g, []).append(b)
     for g in groups.values():
         rnd.shuffle(g)
@@ -353,16 +367,17 @@ def run_item(item):
     return {"function": run_inline, "parameter": run_param, "variable": run_var}[item[0]](item)
 
 
-def tlc_inline(verdict, max_params, max_sites, coverage=False, extra_inv=(), plain=False):
-    cfg = os.path.join(common.SCRATCH_BASE, "c04_%d_%s.cfg" % (os.getpid(), common.digest([max_params, max_sites, extra_inv, plain])))
-    tlc.write_cfg(cfg, constants=inline_constants(max_params, max_sites, plain),
+def tlc_inline(verdict, max_params, max_sites, coverage=False, extra_inv=(), plain=False, scopes=False):
+    cfg = os.path.join(common.SCRATCH_BASE, "c04_%d_%s.cfg" % (os.getpid(), common.digest([max_params, max_sites, extra_inv, plain, scopes])))
+    tlc.write_cfg(cfg, constants=inline_constants(max_params, max_sites, plain, scopes),
                   invariants=INL_INVARIANTS + list(extra_inv) + ([] if extra_inv else ["ExportInline"]))
     behs = []
     res = tlc.run("MC_PyCalls", cfg, on_tagged=lambda t, v: behs.append(v), collect_tags=False,
                   coverage=coverage)
     os.unlink(cfg)
     if not extra_inv:
-        print("TLC PyCalls[inline params<=%d sites<=%d%s]:" % (max_params, max_sites, " plain" if plain else ""), res.summary(),
+        print("TLC PyCalls[inline params<=%d sites<=%d%s%s]:" % (max_params, max_sites, " plain" if plain else "",
+                                                                  " scopes" if scopes else ""), res.summary(),
               "behaviours", len(behs))
         if not res.ok:
             verdict.machinery_failure("TLC: %s %s\n%s" % (res.violated, res.error, (res.trace or res.tail)[-1200:]))
@@ -399,15 +414,22 @@ def main(tier):
             lambda: tlc_var(verdict, 4, "MCVars2" if quick else "MCVars3"),
             # parameter inlining (inline_default behaviours of the signature task)
             lambda: c06.tlc_export(verdict, "AllKinds", 1, 2 if quick else 3, label="inline-parameter")]
+    # scopes and names: every site in its own scope, with / without a clashing live local, repeats of
+    # site 1's call text
+    jobs.append(lambda: tlc_inline(verdict, 2 if quick else 3, 2, plain=True, scopes=True))
     if not quick:
         # wider signatures / more sites with plain bodies (the use x cx product is exhausted above)
         jobs.append(lambda: tlc_inline(verdict, 3, 2, plain=True))
         jobs.append(lambda: tlc_inline(verdict, 2, 3, plain=True))
     got = c06.parallel(jobs)
-    (r1, fbehs), (rv, vbehs), (rp, pbehs) = got[:3]
-    runs += [r1, rv, rp]
+    (r1, fbehs), (rv, vbehs), (rp, pbehs), (rs, sbehs) = got[:4]
+    runs += [r1, rv, rp, rs]
+    for b in sbehs:
+        b["scoped"] = True
+    if not any(b["twins"] and any(s["h"] for s in b["sites"]) for b in sbehs):
+        verdict.machinery_failure("no behaviour with textually identical sites in scopes with different locals")
     if not quick:
-        (r2, behs2), (r3, behs3) = got[3], got[4]
+        (r2, behs2), (r3, behs3) = got[4], got[5]
         runs += [r2, r3]
         fbehs += [b for b in behs2 if len(b["sig"]["ps"]) == 3]
         fbehs += [b for b in behs3 if len(b["sites"]) == 3]
@@ -422,6 +444,11 @@ def main(tier):
     # ---- sensitivity of the invariants: the defect / unchecked models must violate them
     sens = {}
     if not quick:
+        s0, _ = tlc_inline(verdict, 2, 2, plain=True, scopes=True, extra_inv=["HostLocalsKeptC"])
+        sens["body-cached-by-call-text"] = s0.violated
+        if s0.violated != "HostLocalsKeptC":
+            verdict.machinery_failure("model insensitive: cached bodies satisfy HostLocalsKept (%s %s)" % (
+                s0.violated, s0.error))
         s1, _ = tlc_inline(verdict, 2, 2, extra_inv=["SitesIndependentD"])
         sens["rope-as-modelled(shared map, splice, reassign)"] = s1.violated
         if s1.violated != "SitesIndependentD":
@@ -438,9 +465,10 @@ def main(tier):
         behs.sort(key=lambda b: json.dumps(b, sort_keys=True))
         rnd.shuffle(behs)
         return behs[:n]
-    totals = {"function": len(fbehs), "variable": len(vbehs), "parameter": len(pbehs)}
-    fbehs = stratified(fbehs, 900 if quick else 30000, rnd)
-    vbehs = pick(vbehs, 1500 if quick else 40000)
+    totals = {"function": len(fbehs), "function_scopes": len(sbehs), "variable": len(vbehs),
+              "parameter": len(pbehs)}
+    fbehs = stratified(fbehs, 600 if quick else 30000, rnd) + stratified(sbehs, 400 if quick else 12000, rnd)
+    vbehs = pick(vbehs, 1000 if quick else 40000)
     pbehs = pick(pbehs, 60 if quick else 10000)
     items = []
     for b in fbehs:
